@@ -127,7 +127,15 @@ func (i *importedString) StrictEquals(other Value) bool {
 			return true
 		}
 	case *importedString:
-		return i.s == otherStr.s
+		if i.s == otherStr.s {
+			return true
+		}
+		// different bytes may still be the same code units: every invalid UTF-8 sequence is imported as U+FFFD
+		i.ensureScanned()
+		otherStr.ensureScanned()
+		if i.u != nil && otherStr.u != nil {
+			return i.u.equals(otherStr.u)
+		}
 	}
 	return false
 }
